@@ -261,6 +261,20 @@ pub fn oracle(op: &Opts, out: &mut dyn Write) {
             if r2 != e2 { o(out, "type-word-rot-gz", format!("{} {} expected {}", hex(&n2), r2, e2)); } else { o(out, "ok", String::new()); }
         }
     }
+    // witnesses of the two corners where junk characters DO matter (known findings F13, F14):
+    // proved in Lean as C16_junk_leading_full_false / C16_junk_trailing_full_false
+    for (a, b) in [(&b"..x"[..], &b"x"[..]), (&b"~.x"[..], &b"x"[..]), (&b"-.README"[..], &b"README"[..])] {
+        if cls(a, false) != cls(b, false) {
+            o(out, "junk-leading:dot-after-junk-unparsable", format!("{} is {} but {} is {} (walked directory)", hex(a), cls(a, false), hex(b), cls(b, false)));
+        } else { o(out, "ok", String::new()); }
+    }
+    {
+        let a: &[u8] = &[0xFF, b'.', b'l', b'o', b'g', b'~'];
+        let b: &[u8] = &[0xFF, b'.', b'l', b'o', b'g'];
+        if cls(a, false) != cls(b, false) {
+            o(out, "junk-trailing:non-utf8-name-not-trimmed", format!("{} is {} but {} is {}", hex(a), cls(a, false), hex(b), cls(b, false)));
+        } else { o(out, "ok", String::new()); }
+    }
     // default text: stems with no recognised word
     for s in ["a", "foo", "README", "x86", "host1", "hello world", "日本語"] {
         let r = cls(s.as_bytes(), false);
